@@ -18,6 +18,16 @@ pub fn exec(input: &[u64]) -> Vec<u64> {
     let r0 = CoapResponse::new(&req);
     wr_optpkt(&mut out, r0.as_ref().map(|r| &r.message));
     let mut rq: CoapRequest<u64> = CoapRequest::from_packet(req, src);
+    // every fourth case the "handler" turns the prepared reply into a separate response before it fails:
+    // Confirmable, an id of its own, an option set.  apply_from_error must leave all of that alone.
+    if src % 4 == 3 {
+        if let Some(resp) = rq.response.as_mut() {
+            resp.message.header.set_type(coap_lite::MessageType::Confirmable);
+            resp.message.header.message_id = ((src * 7) % 65536) as u16;
+            let mut l = std::collections::LinkedList::new(); l.push_back(vec![(src % 256) as u8]);
+            resp.message.set_option(coap_lite::CoapOption::ETag, l);
+        }
+    }
     let flag = rq.apply_from_error(err);
     wr_packet(&mut out, &rq.message);
     wr_optpkt(&mut out, rq.response.as_ref().map(|r| &r.message));
@@ -79,4 +89,14 @@ pub fn gen(tier: &str, r: &mut Rng, emit: &mut dyn FnMut(Vec<u64>)) {
             one(r, vt << 4, mid, tkl, ec, false);
         }
     }
+    // requests carrying options a server might interpret (No-Response with every interest mask, Observe, Block1/2, If-None-Match)
+    for mask in [0u8, 2, 8, 16, 24, 26, 27, 30, 31, 0x1a, 0x7f, 255] { for ty in 0..4u8 { for two in [false, true] {
+        let mut d = PktDesc::default();
+        d.token = r.bytes(2); d.vtt = 0x40 | ty << 4 | 2; d.mid = r.next() as u16; d.class = 1;
+        d.entries = vec![(5, vec![vec![]]), (6, vec![vec![0]]), (23, vec![vec![0x06]]), (258, vec![if two { vec![0, mask] } else { vec![mask] }])];
+        let mut v = Vec::new();
+        d.write(&mut v);
+        v.push(r.below(1000)); v.push(r.below(29)); wr_bytes(&mut v, b"no");
+        emit(v);
+    } } }
 }
